@@ -7,7 +7,7 @@ import random
 import shutil
 import tempfile
 
-from .. import faults, inplace_engine as ie, lib
+from .. import faults, inplace_engine as ie, lib, procs
 from ..core import REPO
 
 LEVEL = "model_checking"
@@ -17,36 +17,67 @@ BIG_NAMES = ["a%d" % i for i in range(1, 26)] + ["c%d" % i for i in range(1, 26)
 
 def sig(ev, why):
     d = ev.get("doc") or {}
-    return (f"repodata signing ({ev['proc']}): {why} [packages={len(d.get('pk') or [])} "
+    return (f"repodata signing ({ev['proc']}{' in configuration ' + ev['config'] if ev.get('config') else ''}): {why} [packages={len(d.get('pk') or [])} "
             f"conda={'none' if d.get('cd') is None else len(d['cd'])} pre-existing-signatures={d.get('pre')} extra-fields={d.get('extra')}]")
 
 
-def big_documents(run, n):
-    """Documents with up to 25+25 artifacts carrying arbitrary JSON metadata, and the shipped samples."""
-    r = random.Random(run.seed * 13 + 1)
-    workdir = os.path.join(run.scratch, "big")
-    os.makedirs(workdir, exist_ok=True)
-    events, problems = {}, []
+def gen_big_cases(seed, n):
+    r = random.Random(seed * 13 + 1)
+    cases = []
     for i in range(n):
         npk, ncd = r.randint(0, 25), r.choice([None] + list(range(0, 26)))
         pk = ["a%d" % j for j in r.sample(range(1, 26), npk)]
         cd = None if ncd is None else ["c%d" % j for j in r.sample(range(1, 26), ncd)]
         nm = r.randint(1, 50)
         meta = {a: "m%d" % r.randint(1, nm) for a in BIG_NAMES}
-        case = {"proc": r.choice(["repodata", "cli_sign"]), "input": "ok",
-                "doc": {"pk": sorted(pk), "cd": None if cd is None else sorted(cd), "meta": meta,
-                        "pre": r.choice(["absent", "empty", "stale_gone", "stale_present", "stale_own_key", "current_own_key", "junk"]), "extra": r.random() < .5, "rich": True}}
-        ev, tr, before, after, ctx = faults.run_case(case, workdir, run.seed)
-        run.evaluations += 1
+        cases.append({"proc": r.choice(["repodata", "cli_sign"]), "input": "ok",
+                      "doc": {"pk": sorted(pk), "cd": None if cd is None else sorted(cd), "meta": meta,
+                              "pre": r.choice(["absent", "empty", "stale_gone", "stale_present", "stale_own_key", "current_own_key", "junk"]),
+                              "extra": r.random() < .5, "rich": i % 2 == 0}})
+    return cases
+
+
+def exec_big_cases(cases, workdir, seed):
+    os.makedirs(workdir, exist_ok=True)
+    events, problems = [], []
+    for case in cases:
+        ev, tr, before, after, ctx = faults.run_case(case, workdir, seed)
         if ev["completed"]:
-            res, probs = ie.result_alpha(case, ctx, before, after, workdir, run.seed)
+            res, probs = ie.result_alpha(case, ctx, before, after, workdir, seed)
             ev["result"] = res
             problems += [{"case": case, "problem": p} for p in probs]
         else:
             ev["result"] = {"names": [], "metas": []}
         ev["doc"] = {k: v for k, v in case["doc"].items() if k != "rich"}
-        events[i] = [ev, 1, {"case": case, "fault_at": None, "outcome": ev["outcome"]}]
-    return list(events.values()), problems
+        events.append([ev, 1, {"case": case, "fault_at": None, "outcome": ev["outcome"]}])
+    return events, problems
+
+
+def task_inplace_cases(job):
+    """subworker task: the same documents signed in a fresh interpreter configuration (locale, encodings, environment)."""
+    events, problems = exec_big_cases(job["cases"], job["workdir"], job["seed"])
+    return {"events": events, "problems": problems}
+
+
+def big_documents(run, n):
+    """Documents with up to 25+25 artifacts carrying arbitrary JSON metadata, in this process and in every interpreter configuration."""
+    cases = gen_big_cases(run.seed, n)
+    events, problems = exec_big_cases(cases, os.path.join(run.scratch, "big"), run.seed)
+    run.evaluations += len(cases)
+    per = max(6, n // 4)
+    for i, cfg in enumerate(procs.CONFIGS):
+        sub = cases[(i * per) % max(1, n - per):][:per]
+        res = procs.run_job(run, {"task": "inplace_cases", "cases": sub, "seed": run.seed, "workdir": os.path.join(run.scratch, "big-" + cfg[0]),
+                                  "task_modules": ["cctverif.props.c11"]}, cfg)
+        run.evaluations += len(sub)
+        for ev, k, conc in res["events"]:
+            ev["config"] = conc["config"] = cfg[0]
+            events.append([ev, k, conc])
+        for pr in res["problems"]:
+            pr["problem"] = f"[{cfg[0]}] " + pr["problem"]
+            problems.append(pr)
+    run.extra["configurations"] = [c[0] for c in procs.CONFIGS]
+    return events, problems
 
 
 def shipped_samples(run):
